@@ -1237,16 +1237,6 @@ func randomRun(rq RandReq) (res Result) {
 			// the process dies before log write call number cut (0-based), tail kept or not
 			cut := rng.Intn(nWal)
 			keep := rng.Intn(2) == 0
-			ops := recOps(ios)
-			for cut < nWal {
-				nd := durableRecords(ios, cut, keep)
-				if nd >= 1 && nd < len(ops) && ops[nd-1] == 0 && ops[nd] == 1 {
-					cut++ // known finding rootmove-record-cut: not a cut this driver takes
-					res.Stats["rootmove-cuts-avoided"]++
-					continue
-				}
-				break
-			}
 			if cut < nWal {
 				walNow, _ := walCut(before.wal, ios, cut, keep)
 				cur := takeSnap()
